@@ -725,13 +725,6 @@ class StateEngine(object):
                         {"StateMachineArn": state_machine_arn}
                     )
 
-                """
-                Tidy up self.branch_metadata for current execution_arn.
-                If ExecutionSucceeded we just remove, as we don't have to cater
-                for outstanding terminated branch messages subsequently arriving.
-                """
-                if execution_arn in self.branch_metadata:
-                    del self.branch_metadata[execution_arn]
         
         if self.execution_metrics:
             duration = (execution_detail["stopDate"] - 
@@ -749,11 +742,15 @@ class StateEngine(object):
 
         """
         Tidy up self.branch_metadata for current execution_arn.
-        If ExecutionFailed we need to check for outstanding terminated
-        branch messages subsequently arriving. This acknowledges the held
-        branch events, so it is done after the terminal notification is sent.
+        We need to check for outstanding terminated branch messages
+        subsequently arriving. That is the case for ExecutionFailed, but also
+        for ExecutionSucceeded when the failure of a Parallel or Map state was
+        caught: a terminated sibling branch that is waiting out a Retry
+        interval must still find the terminated mark when its timer fires.
+        This acknowledges the held branch events, so it is done after the
+        terminal notification is sent.
         """
-        if execution_failed and execution_arn in self.branch_metadata:
+        if execution_arn in self.branch_metadata:
             self.check_pending_results(execution_arn)
 
     def update_execution_history(
